@@ -134,6 +134,11 @@ func runC02(r *report.Run) {
 	r.Set("traces_validated_against_impl", total+tr)
 	r.Set("evaluations", total+tr)
 	r.Set("distinct_nontrivial", nontriv)
+	for i, cs := range cpuSampled {
+		if i%8 == 0 {
+			r.Sample(cs)
+		}
+	}
 	r.Set("rule", "every case of the five single-step sweeps (with E in {0,1} everywhere, decimal in the operation and flag sweeps, pending interrupt in {0,none,NMI,IRQ} in the flag sweep) and every instruction sequence of the program search is executed on both interpreters from identical raw states and identical images; after each step all exported registers (both copies of A/X/Y), flags, E, Stopped, Interrupt, per-step cycles, AllCycles and the write sets must be identical; non-trivial = the step wrote memory or changed SP, P or the accumulator")
 	r.Assume("no reference model involved: the oracle is raw lockstep equality of the two implementations")
 	c := cpuDefaultCase(0xAF)
